@@ -59,7 +59,7 @@ ASSUMPTIONS = [
 
 
 def budget(tier):
-    return int(os.environ.get("VERIF_BUDGET", 0)) or {"quick": 1000, "thorough": 12000}[tier]
+    return int(os.environ.get("VERIF_BUDGET", 0)) or {"quick": 700, "thorough": 12000}[tier]
 
 
 # ================================================================== case generation
@@ -769,9 +769,13 @@ def _check_kind(c, f, v, notes):
 
 
 def _safe_hash(x):
+    """hash(x), or None when hashing raises (TypeError for unhashable content; anything else is recorded too)."""
     try:
         return hash(x)
     except TypeError:
+        return None
+    except Exception as e:
+        _S.setdefault("hash_errors", set()).add(type(e).__name__)
         return None
 
 
@@ -800,7 +804,7 @@ def _root_cause(a, b, depth=0):
                 return _root_cause(x, y, depth + 1)
         return "tuple"
     cname = _cls_of(a) or type(a).__name__
-    if type(a) is not type(b) or not hasattr(a, "__dict__"):
+    if not (hasattr(a, "__dict__") and hasattr(b, "__dict__")) or (type(a) is not type(b) and _cls_of(a) != _cls_of(b)):
         return cname
     ha = _safe_hash(a)
     for f, va in vars(a).items():
